@@ -23,9 +23,9 @@ checks = [
     chk("C05", "wirelab", "exploration",
         "bounded-exhaustive enumeration of frames of all 8 kinds, frame sequences, every chunking of the byte stream up to 3 cuts, header-only inputs around the 1 MiB limit and message lists, each compared with an independent reference encoder and a list model; the real MessageCodec / batch functions are executed on every case",
         W_NOTE, "bounded-exhaustive input enumeration against a reference model (small-scope model checking of a sequential codec)", "DESIGN.md §4 C05"),
-    chk("C06", "wirelab", "exploration",
+    chk("C06", "wirelab+e2elab", "exploration",
         "every decoder (frame codec, Frame::try_from, unbatching, string/bytes/bincode codecs, 5 decompressors and the subscriber's decompress->unbatch->decode pipeline) is run on complete finite sets of byte strings (all short strings, all strings over a boundary alphabet, every prefix / substitution / 8-byte-window overwrite of valid encodings) in child processes with a counting allocator, so panics, aborts and absurd allocation requests are all observable",
-        W_NOTE + "; allocations inside C libraries are only bounded by RLIMIT_AS", "bounded-exhaustive input enumeration in fault-isolating child processes", "DESIGN.md §4 C06"),
+        W_NOTE + "; allocations inside C libraries are only bounded by RLIMIT_AS; end-to-end half (e2elab): a raw publisher sends one representative of every hostile payload class through the real server to a real Subscriber for every decoder x decompression x frame kind; its task must not panic or hang", "bounded-exhaustive input enumeration in fault-isolating child processes, plus an end-to-end matrix through the real Subscriber", "DESIGN.md §4 C06"),
     chk("C07", "wirelab+e2elab", "exploration",
         "grammar half (wirelab): all strings up to length 5 (6) over a 14-character alphabet, all /ns/tp at the length and reserved-word boundaries and component pairs through the server-side rule, compared with a hand-written character-loop reference; server half (e2elab): 34 boundary names sent on the wire by a raw peer in all roles against the real server (Ok iff the reference accepts, invalid-topic error otherwise) and 6 pairs of near-identical valid names checked for traffic isolation",
         W_NOTE + "; server half: scheduling not controlled, quiet windows for absence", "bounded-exhaustive input enumeration against a reference grammar, plus an exhaustive name/role matrix over the real server", "DESIGN.md §4 C07, §5 C07"),
